@@ -359,6 +359,10 @@ type RelayCase struct {
 	Report bool    `json:"fetch_report"`
 	// Poll: the status report is requested repeatedly while the session's traffic is flowing.
 	Poll bool `json:"poll_report_during_session"`
+	// EarlyClose: the client hangs up as soon as it has sent everything, while the upstream server only
+	// starts reading ServerLagMs later; every byte the proxy accepted must still reach the server.
+	EarlyClose  bool `json:"client_closes_early"`
+	ServerLagMs int  `json:"server_lag_ms"`
 }
 
 func send(conn net.Conn, c Chunked) {
@@ -460,6 +464,28 @@ func checkRelay(c RelayCase, o *stats.Obs) error {
 			}
 		}
 	}()
+	if c.EarlyClose {
+		// upload, hang up, and let the slow server collect afterwards
+		done := make(chan struct{})
+		go func() { send(client, c.C2S); client.Close(); close(done) }()
+		time.Sleep(time.Duration(c.ServerLagMs) * time.Millisecond)
+		got := recvN(server, len(c2s), 20*time.Second)
+		<-done
+		close(stopPoll)
+		<-pollDone
+		p.c2sHistory = append(p.c2sHistory, c2s...)
+		if !bytes.Equal(got, c2s) {
+			o.Key = "client-to-server-after-hangup"
+			return fmt.Errorf("the client sent %d bytes and hung up; the upstream server (reading %d ms later) received different bytes: %s", len(c2s), c.ServerLagMs, appsup.Diff(got, c2s))
+		}
+		if !p.alive() {
+			o.Key = "proxy-died"
+			return fmt.Errorf("proxy process died after the client hung up")
+		}
+		o.NonTrivial = len(c2s) > 0
+		o.Class("client-hangs-up-early")
+		return nil
+	}
 	wg.Add(4)
 	go func() { defer wg.Done(); send(client, c.C2S) }()
 	go func() { defer wg.Done(); send(server, c.S2C) }()
@@ -585,7 +611,7 @@ func genIdle(t *rapid.T) RelayCase {
 		ch.Chunks = []int{17}
 		ch.IdleMs = 5500
 		if os.Getenv("VERIF_TIER") == "thorough" {
-			ch.IdleMs = 12000
+			ch.IdleMs = 35000
 		}
 	}
 	return c
@@ -594,5 +620,21 @@ func genIdle(t *rapid.T) RelayCase {
 var propIdle = stats.Prop(R, "long-idle", genIdle, checkRelay)
 
 func TestLongIdle(t *testing.T) { rapid.Check(t, propIdle) }
+
+// Early hang-up: a large upload, the client closes at once, the server is slow to read.
+func genHangup(t *rapid.T) RelayCase {
+	c := RelayCase{EarlyClose: true, ServerLagMs: rapid.SampledFrom([]int{0, 300, 1500}).Draw(t, "serverLag")}
+	total := rapid.SampledFrom([]int{1000, 70000, 200000, 512 * 1024, 1 << 20}).Draw(t, "uploadBytes")
+	var b []byte
+	for len(b) < total {
+		b = append(b, gen.ValidFrame(t, 1023)...)
+	}
+	c.C2S.Pieces = []stats.Hex{b[:total]}
+	return c
+}
+
+var propHangup = stats.Prop(R, "hangup", genHangup, checkRelay)
+
+func TestHangup(t *testing.T) { rapid.Check(t, propHangup) }
 
 func TestReplay(t *testing.T) { R.Replay(t) }
